@@ -1,7 +1,7 @@
 (* Corr.v — comparison of model outputs with the implementation's observables,
    evaluated by vm_compute from generated case files (definitions only). *)
 From Coq Require Import ZArith List Bool Lia.
-From Dendro Require Import Base Tree Grid Criteria Compute.
+From Dendro Require Import Base Tree Grid Criteria Compute Index.
 Import ListNotations.
 Open Scope Z_scope.
 
@@ -36,3 +36,14 @@ Definition nav_ok (c : nav_case) : bool :=
   nav_eqb (nav_view f) en &&
   zl_eqb (sort_by (fun x => x) (map tid (leaves_of f))) el &&
   (zlen (fnodes f) =? elen).
+
+(* ---- accessors (C06): (labels, forest as observed, expected view) *)
+Definition acc_t := list (Z * ((list Z * list Z) * ((Z * Z) * ((Z * Z) * (Z * ((Z * Z) * (Z * Z))))))).
+Definition zz_eqb := pair_eqb Z.eqb Z.eqb.
+Definition acc_eqb : acc_t -> acc_t -> bool :=
+  list_eqb (pair_eqb Z.eqb
+    (pair_eqb (pair_eqb zl_eqb zl_eqb)
+      (pair_eqb zz_eqb (pair_eqb zz_eqb (pair_eqb Z.eqb (pair_eqb zz_eqb zz_eqb)))))).
+Definition acc_case : Type := list Z * list tree * acc_t.
+Definition acc_ok (c : acc_case) : bool :=
+  let '(labels, f, e) := c in acc_eqb (Index.acc_view labels f) e.
